@@ -89,38 +89,35 @@ CLAIM = ("Every generated index was applied to the real dask.array (getitem / vi
 LEVEL_NOTE = "NumPy is the reference; domain limited to the index kinds the statement names and dask documents"
 TECHNIQUE = "runtime monitoring: NumPy differential oracle over a complete small slice space and generated index tuples"
 
+# Labels recorded as known findings (known_findings.d/C20.json).  Everything else that was PENDING is repaired by
+# fixes_ready/C20_01..06 (and C21_01..09, C25_02/04, 80fc0ed for the zero-size-chunk families); see FIXED.
 PENDING = {
-    # DESIGN section 6 #16, first mechanism (normalize_slice): fix proposed in findings_proposed/C20.md
-    "getitem:slice[negstep,start<-n]:shape": "negative-step slice whose start lies below -n selects elements (NumPy: none); normalize_slice",
-    # DESIGN section 6 #16, second mechanism (None next to an array index; slice_with_newaxes & friends)
-    "getitem:None+int-list:AttributeError@array/slicing.py:slice_with_newaxes": "x[None, [0, 1, .., n-1]] (take's arange shortcut returns Alias tasks)",
-    "getitem:None+int-list&split-chunks:TypeError@_task_spec.py:__call__": "x[None, [1, 2]] when an output chunk gathers from two input chunks: concatenate_arrays() loses its axis argument",
-    "getitem:None+int+array-index:raises": "x[[1], 0, None]: IndexError tuple index out of range in slice_with_newaxes (also ValueError in concatenate3)",
-    "getitem:None+int+array-index:wrong-result": "x[[1, 2], 0, None, 0:2]: computed value has the new axis in the wrong place (lazy shape right) - silent",
-    "getitem:None+dask-int-array:AssertionError@array/slicing.py:slice_with_int_dask_array": "None together with a dask integer indexer: assert len(index) == x.ndim",
-    "getitem:None+dask-bool-array:IndexError@array/slicing.py:getitem_variadic": "None together with a 1-d dask boolean indexer",
-    # integer + array separated by a slice: NumPy moves the broadcast axis first, dask does not
-    "getitem:int&array-index-separated:array-axis-not-moved-first": "x[0, :, [1, 2]] has shape (n1, 2) in dask, (2, n1) in NumPy",
-    # dask integer indexer equal to the chunk offsets: key-name collision with the internal offsets array
-    "getitem:dask-int-array[=chunk-offsets]:lazy-shape": "x[da.from_array([0], chunks=1)] on a one-chunk array: lazy shape (n,), computes 1 element",
-    "getitem:dask-int-array[=chunk-offsets]&split-chunks:ValueError@array/core.py:normalize_chunks": "x[da.from_array([0, 3], chunks=1)] with chunks (3, 3) raises",
-    # reshape/ravel of arrays with a zero-length axis and several chunks (root cause in reshape_rechunk), reached through x[mask]
-    "getitem:full-shape-mask&split-chunks&zero-length-axis:TypeError@array/reshape.py:reshape_rechunk": "x[mask] with shape (4, 0), chunks ((2, 2), (0,)): ravel fails",
-    "getitem:full-shape-dask-mask[own-chunks]&zero-length-axis:TypeError@array/reshape.py:reshape_rechunk": "same, the split chunks are those of the dask mask",
-    "getitem:full-shape-mask&split-chunks&zero-length-axis:IndexError@array/reshape.py:reshape_rechunk": "same with two zero-length axes",
-    "getitem:full-shape-dask-mask[own-chunks]&zero-length-axis:IndexError@array/reshape.py:reshape_rechunk": "same with two zero-length axes",
-    # chunkings with a zero-size chunk inside a non-empty axis, e.g. chunks=((2, 0, 1),)  (family label, see classify)
-    "getitem:slice&zero-size-chunk:wrong-result": "da.from_array(np.arange(3), chunks=((2, 0, 1),))[::-1] is empty: _slice_1d bisects duplicate chunk boundaries",
-    "getitem:int-or-bool-array&zero-size-chunk:raises": "x[[1]] with chunks (1, 0, 1): take() computes average_chunk_size 0 -> range() arg 3 must not be zero",
-    "getitem:dask-index-array&zero-size-chunk:raises": "x[dask_int_or_bool_array] with a zero-size chunk: Missing dependency ... (blockwise skips the empty block)",
-    "getitem:dask-index-array&zero-size-chunk:wrong-result": "x[:, dask_bool] with chunks ((1, 0), (6,)): computed shape differs",
-    "getitem:full-shape-mask&zero-size-chunk:wrong-result": "same family",
-    "getitem:full-shape-mask&zero-size-chunk:raises": "x[mask] with chunks ((1, 2, 0, 1), ...): cannot reshape array of size 2 into shape (1,)",
-    "vindex:int-list[dup,2d]+slice[|step|>1,start<0]&split-chunks:ValueError@local.py:start_state_from_dask": "rare (1 in 300 000, thorough): vindex with a 2-d point set on an array with zero-size chunks/axes: reshape leaves a Missing dependency",
-    # vindex corner cases
-    "vindex:int-array[0d]:TypeError@array/core.py:_vindex_array": "x.vindex[np.array(2)]: len() of a 0-d index array",
-    "vindex:int-array[empty,2d]:ValueError@array/core.py:_vindex_array": "x.vindex[np.zeros((2, 0), int)]: max of an empty array",
-    "vindex:int-array[empty,2d]&split-chunks:TypeError@array/reshape.py:reshape_rechunk": "empty 2-d point set on a chunked array: reshape of the zero-size result fails",
+    "getitem:int&array-index-separated:array-axis-not-moved-first": "x[0, :, [1, 2]] has shape (n1, 2) in dask, (2, n1) in NumPy (integer and array index separated by a slice/None/Ellipsis)",
+    "getitem:dask-index-array&zero-size-chunk:raises": "x[dask_bool] where an axis of length <= 1 is split into chunks (1, 0) / (0, 1): blockwise does not align the mask with the empty chunk",
+    "getitem:dask-index-array&zero-size-chunk:wrong-result": "same family, second symptom class (thorough tier only, 1 in 375 000)",
+}
+FIXED = {
+    "C20_01_negative_step_start_below_minus_n": ["getitem:slice[negstep,start<-n]:shape"],
+    "C20_02_int_dask_index_offsets_name_collision": ["getitem:dask-int-array[=chunk-offsets]:lazy-shape",
+                                                     "getitem:dask-int-array[=chunk-offsets]&split-chunks:ValueError@array/core.py:normalize_chunks"],
+    "C20_03_vindex_0d_and_empty_2d_index": ["vindex:int-array[0d]:TypeError@array/core.py:_vindex_array",
+                                            "vindex:int-array[empty,2d]:ValueError@array/core.py:_vindex_array"],
+    "C20_04_reshape_zero_size_array_with_several_chunks": [
+        "getitem:full-shape-mask&split-chunks&zero-length-axis:TypeError@array/reshape.py:reshape_rechunk",
+        "getitem:full-shape-mask&split-chunks&zero-length-axis:IndexError@array/reshape.py:reshape_rechunk",
+        "getitem:full-shape-dask-mask[own-chunks]&zero-length-axis:TypeError@array/reshape.py:reshape_rechunk",
+        "getitem:full-shape-dask-mask[own-chunks]&zero-length-axis:IndexError@array/reshape.py:reshape_rechunk",
+        "vindex:int-array[empty,2d]&split-chunks:TypeError@array/reshape.py:reshape_rechunk",
+        "vindex:int-list[dup,2d]+slice[|step|>1,start<0]&split-chunks:ValueError@local.py:start_state_from_dask"],
+    "C20_05_none_with_array_index": [
+        "getitem:None+int-list:AttributeError@array/slicing.py:slice_with_newaxes",
+        "getitem:None+int-list&split-chunks:TypeError@_task_spec.py:__call__",
+        "getitem:None+int+array-index:raises", "getitem:None+int+array-index:wrong-result",
+        "getitem:None+dask-int-array:AssertionError@array/slicing.py:slice_with_int_dask_array",
+        "getitem:None+dask-bool-array:IndexError@array/slicing.py:getitem_variadic"],
+    "C20_06_reshape_zero_size_chunk": ["getitem:full-shape-mask&zero-size-chunk:raises", "getitem:full-shape-mask&zero-size-chunk:wrong-result"],
+    "80fc0ed (already in /repo)": ["getitem:int-or-bool-array&zero-size-chunk:raises"],
+    "C25_04_negative_step_slice_zero_size_chunk": ["getitem:slice&zero-size-chunk:wrong-result"],
 }
 
 DTYPES = ["int64", "int64", "float64", "float64", "int32", "float32", "complex128", "datetime64[ns]", "bool", "uint8", "int8"]
@@ -410,8 +407,8 @@ def classify(op, shape, chunks, dtype, enc, bare, sym):
         # a zero-size chunk inside a non-empty axis is needed by the minimal witness: a family of defects (duplicate
         # chunk boundaries in _slice_1d, average chunk size 0 in take, blockwise over empty blocks ...) whose shrunk
         # forms vary; labelled by index family and symptom class
-        fam = ("dask-index-array" if any(t.startswith("dask-") for t in toks) else
-               "full-shape-mask" if any(t.startswith("full-shape") for t in toks) else
+        # (full-shape masks, NumPy or dask, are applied as dask boolean arrays)
+        fam = ("dask-index-array" if any(t.startswith(("dask-", "full-shape")) for t in toks) else
                "int-or-bool-array" if any(t.startswith(("int-list", "int-array", "bool-list", "bool-array")) for t in toks) else
                "slice" if any(t.startswith("slice") for t in toks) else "basic-index")
         label = "%s:%s&zero-size-chunk:%s" % (op_m, fam, "wrong-result" if sym_m in MISMATCH_SYMPTOMS else "raises")
